@@ -57,6 +57,34 @@ def decAllFuel (S : Nat) : Nat → List Nat → List Nat
 
 def decAll (S : Nat) (bs : List Nat) : List Nat := decAllFuel S bs.length bs
 
+/-! ### the hand-unrolled `u32` encoder of the indexing-time recorders
+
+-- mirrors: common/src/vint.rs::serialize_vint_u32
+-- mirrors: common/src/vint.rs::vint_len
+-- mirrors: common/src/vint.rs::read_u32_vint_no_advance
+-/
+
+/-- the size ladder: `if val < START_2 {1} else if val < START_3 {2} …  else {last}` -/
+def ladderBytes (last : Nat) : List (Nat × Nat) → Nat → Nat
+  | [], _ => last
+  | (bound, n) :: rest, val => if val < bound then n else ladderBytes last rest val
+
+/-- `serialize_vint_u32`: with `n` the number of bytes chosen by the ladder, the result is
+`Σ_{k ≤ n} ((val & MASK_k) << (k−1)) | (STOP << 8(n−1))` written little-endian, i.e. byte `i` is
+the `i`-th 7-bit group of `val` (`MASK_k = (R−1)·R^(k−1)`), the last byte carries the stop bit.
+Groups beyond the `n`-th are dropped — which is why the thresholds matter. -/
+def serializeU32 (ladder : List (Nat × Nat)) (last R S : Nat) (val : Nat) : List Nat :=
+  let n := ladderBytes last ladder val
+  (List.range n).map (fun i => val / R ^ i % R + (if i + 1 = n then S else 0))
+
+/-- `read_u32_vint_no_advance`: the stop byte is searched among the first `maxLen` bytes
+(panic "Corrupted data" otherwise → `none`), the value is the sum of the 7-bit groups;
+returns (value, number of bytes read) -/
+def readU32 (S maxLen : Nat) (bs : List Nat) : Option (Nat × Nat) :=
+  match dec S (bs.take maxLen) with
+  | some (v, r) => some (v, (bs.take maxLen).length - r.length)
+  | none => none
+
 /-- the stop bit / radix the code uses (both VInt flavours) -/
 abbrev STOP : Nat := Gen.Postings.VINT_STOP_BIT
 
